@@ -462,7 +462,7 @@ theorem np_JC2 (hnd : paths.Nodup) (s1 : St Nat) (hc : CacheOK s1)
     (hf : ∀ n, s1.files n = npB1 paths cpus old s.files n) :
     JC (npB1 paths cpus old s.files) (npB2 paths cpus s.files)
       (paths.reverse.map fun n => ({ node := n, tgt := some cpus } : Upd Nat)) s1 := by
-  refine ⟨hc, by rw [np_nodes2]; exact List.nodup_reverse.mpr hnd, ?_, ?_⟩
+  refine ⟨hc, by rw [np_nodes2]; exact (List.reverse_perm paths).nodup_iff.mpr hnd, ?_, ?_⟩
   · intro u hu
     simp only [List.mem_map, List.mem_reverse] at hu
     obtain ⟨n, hn, rfl⟩ := hu
@@ -590,6 +590,18 @@ theorem ex_levelled : Levelled exParent exLevels := by
     · subst ha; subst hb; simp [exParent]
 theorem ex_valid : Valid exParent subMask exS.files ∧ Valid exParent subMask exT := by
   refine ⟨?_, ?_⟩ <;> intro c p h <;> unfold exParent at h <;> split at h <;> cases h <;> decide
+
+/-- none-policy non-vacuity: besteffort dir 0 with pod 1 (container 2) and pod 3, all on 0-3, shifted to 2-4. -/
+example : (nonePolicy false [0, 1, 2, 3] 28 15 { files := fun n => if n ≤ 3 then 15 else 0, cache := fun _ => none, skip := [] }).2 =
+    [(0, 31), (1, 31), (2, 31), (3, 31), (3, 28), (2, 28), (1, 28), (0, 28)] := by decide
+example : ∀ k, Valid exParent subMask (applyWrites (fun n => if n ≤ 3 then 15 else 0)
+    ((nonePolicy false [0, 1, 2, 3] 28 15 { files := fun n => if n ≤ 3 then 15 else 0, cache := fun _ => none, skip := [] }).2.take k)) :=
+  none_policy_every_prefix_valid exParent [0, 1, 2, 3] 28 15 false
+    { files := fun n => if n ≤ 3 then 15 else 0, cache := fun _ => none, skip := [] }
+    (by intro n v h; simp at h) (by decide) (by simp [exParent])
+    (by intro c p h; unfold exParent at h; split at h <;> cases h <;> simp)
+    (by intro n hn; simp at hn; rcases hn with h | h | h | h <;> subst h <;> decide)
+    (by intro c p h; unfold exParent at h; split at h <;> cases h <;> decide)
 
 /-- all hypotheses of the main theorems hold on the shift example, so their conclusions apply to it. -/
 example : (∀ k, Valid exParent subMask (applyWrites exS.files ((runBatch cpusetDom false exLevels exS).2.take k))) ∧
